@@ -93,4 +93,22 @@ theorem structHistory_undo_bmp (S : Schema) (hS : S ∈ familySchemas) (doc : No
   PM.C04.structHistory_undo_bmp S (family_compatTrans _ hS) (textLoop_of_B _ (family_textLoop _ hS)) doc ops tr'
     hd hn hb hall h hres
 
+/-- `PM.C04.structHistory_undo_bmp'` with its schema guards discharged for the bundled schema family -/
+theorem structHistory_undo_bmp' (S : Schema) (hS : S ∈ familySchemas) (doc : Node) (ops : List Op) (tr' : Tr)
+    (hd : S.checkNode doc = true) (hn : fnorm doc.kids = true) (hb : bmpDoc doc = true)
+    (hall : ∀ op ∈ ops, structuralOp' op = true) (h : (Tr.init doc).runOps S ops = some tr')
+    (hres : OpsAll S (StructResidual' S) (Tr.init doc) ops) :
+    tr'.undo S = .ok doc ∧ FamilyInv S tr'.doc :=
+  PM.C04.structHistory_undo_bmp' S (family_compatTrans _ hS) (textLoop_of_B _ (family_textLoop _ hS)) doc ops
+    tr' hd hn hb hall h hres
+
+/-- `PM.C04.mixedHistory_undo_bmp` with its schema guards discharged for the bundled schema family -/
+theorem mixedHistory_undo_bmp (S : Schema) (hS : S ∈ familySchemas) (doc : Node) (ops : List Op) (tr' : Tr)
+    (hd : S.checkNode doc = true) (hn : fnorm doc.kids = true) (hb : bmpDoc doc = true)
+    (hall : ∀ op ∈ ops, mixedOp op = true) (h : (Tr.init doc).runOps S ops = some tr')
+    (hres : OpsAll S (MixedResidual S) (Tr.init doc) ops) :
+    tr'.undo S = .ok doc ∧ FamilyInv S tr'.doc :=
+  PM.C04.mixedHistory_undo_bmp S (family_compatTrans _ hS) (textLoop_of_B _ (family_textLoop _ hS)) doc ops tr'
+    hd hn hb hall h hres
+
 end PM.Family.C04
